@@ -39,6 +39,8 @@ type RpcCall struct {
 	SrvEnd     bool   `json:"srv_end"`
 	SkipRecv   bool   `json:"skip_recv"` // the client calls Response without reading the stream
 	StartUs    int    `json:"start_us"`
+	CancelUs   int    `json:"cancel_us,omitempty"` // the caller cancels its context after this long (0: never)
+	Skip       bool   `json:"skip,omitempty"`      // channel kind: the handler returns SkipResponse (no response message)
 }
 
 type RpcPlan struct {
@@ -101,6 +103,13 @@ func genRpcPlan(g *simrt.Rng, tier string) *RpcPlan {
 			c.SrvEnd = g.Bool(0.3)
 			c.Early = g.Bool(0.25)
 			c.SkipRecv = g.Bool(0.25)
+			c.Skip = g.Bool(0.1)
+		}
+		if c.Kind != "oneway" && g.Bool(0.12) {
+			c.CancelUs = simrt.Pick(g, 1, 50, 2000, 40000)
+			if g.Bool(0.5) && c.DelayUs < c.CancelUs {
+				c.DelayUs = c.CancelUs * 2 // make sure the cancellation lands while the call waits
+			}
 		}
 		p.Calls = append(p.Calls, c)
 	}
@@ -225,7 +234,7 @@ func (r *rpcRun) handle(ctx rpc.Context, ch rpc.ServerChannel) (ref.R[[]byte], s
 				st := ch.Send(ctx, r.streamBytes(id, dirSS, k, size))
 				if !st.OK() {
 					simrt.Logf("call%d server stream #%d -> %s", id, k, stName(st))
-					if !r.p.Faulty {
+					if !r.p.Faulty && c.CancelUs == 0 {
 						r.fail("C04-stream-send", "call %d: server stream message #%d could not be sent: %s", id, k, stName(st))
 					}
 					return
@@ -249,7 +258,7 @@ func (r *rpcRun) handle(ctx rpc.Context, ch rpc.ServerChannel) (ref.R[[]byte], s
 				}
 				s.srvGot++
 			}
-			if !r.p.Faulty && s.srvGot != len(c.CliStream) {
+			if !r.p.Faulty && c.CancelUs == 0 && s.srvGot != len(c.CliStream) {
 				r.fail("C04-stream-incomplete", "call %d: the handler read until the end of the client stream and got %d of %d messages", id, s.srvGot, len(c.CliStream))
 			}
 		}
@@ -261,7 +270,7 @@ func (r *rpcRun) handle(ctx rpc.Context, ch rpc.ServerChannel) (ref.R[[]byte], s
 		s.handlerSt = "panic"
 		panic(simrt.PanicSentinel{Tag: fmt.Sprintf("call%d", id)})
 	}
-	if c.Kind == "oneway" {
+	if c.Kind == "oneway" || c.Skip {
 		s.handlerSt = "skip"
 		return nil, rpc.SkipResponse
 	}
@@ -294,7 +303,7 @@ func (r *rpcRun) checkResult(id int, val spec.Value, st status.Status) {
 		if s.starts != 1 {
 			r.fail("C04-ok-without-handler", "call %d returned OK but its handler ran %d times", id, s.starts)
 		}
-		if c.Panic || c.Code != "ok" {
+		if c.Panic || c.Code != "ok" || c.Skip {
 			r.fail("C04-false-ok", "call %d returned OK but its handler produced %q (panic=%v)", id, c.Code, c.Panic)
 		}
 		if c.ResultSize == 0 {
@@ -312,8 +321,11 @@ func (r *rpcRun) checkResult(id int, val spec.Value, st status.Status) {
 	if r.p.Faulty {
 		return
 	}
-	if c.Panic {
+	if c.Panic || c.Skip {
 		return // any non-OK status
+	}
+	if c.CancelUs > 0 && st.Code == status.CodeCancelled {
+		return // the caller's own cancellation
 	}
 	if c.Code == "ok" {
 		r.fail("C04-status", "call %d: the handler succeeded but the caller got %s", id, stName(st))
@@ -335,9 +347,20 @@ func (r *rpcRun) clientCall(id int, cl rpc.Client) {
 	}
 	req, free := r.buildRequest(id)
 	defer free()
+	ctx := async.Context(r.bg)
+	if c.CancelUs > 0 {
+		cc := async.NewContext()
+		defer cc.Free()
+		ctx = cc
+		simrt.Go(fmt.Sprintf("call%d-cancel", id), func() {
+			simrt.Sleep(time.Duration(c.CancelUs) * time.Microsecond)
+			simrt.Logf("call%d caller cancels", id)
+			cc.Cancel()
+		})
+	}
 	switch c.Kind {
 	case "request":
-		res, st := cl.Request(r.bg, req)
+		res, st := cl.Request(ctx, req)
 		var val spec.Value
 		if res != nil {
 			val = res.Unwrap()
@@ -355,11 +378,11 @@ func (r *rpcRun) clientCall(id int, cl rpc.Client) {
 		}
 		s.reqOK = st.OK()
 	case "channel":
-		ch, st := cl.Channel(r.bg, req)
+		ch, st := cl.Channel(ctx, req)
 		if !st.OK() {
 			s.cliSt = st
 			simrt.Logf("call%d channel open -> %s", id, stName(st))
-			if !r.p.Faulty {
+			if !r.p.Faulty && !(c.CancelUs > 0 && st.Code == status.CodeCancelled) {
 				r.fail("C04-open", "call %d: Channel on a healthy connection returned %s", id, stName(st))
 			}
 			return
@@ -368,7 +391,7 @@ func (r *rpcRun) clientCall(id int, cl rpc.Client) {
 		var g group
 		g.goTask(fmt.Sprintf("call%d-csend", id), func() {
 			for k, size := range c.CliStream {
-				st := ch.Send(r.bg, r.streamBytes(id, dirCS, k, size))
+				st := ch.Send(ctx, r.streamBytes(id, dirCS, k, size))
 				if !st.OK() {
 					simrt.Logf("call%d client stream #%d -> %s", id, k, stName(st))
 					// the server may respond early and close the call: later sends then fail by design
@@ -376,15 +399,16 @@ func (r *rpcRun) clientCall(id int, cl rpc.Client) {
 				}
 			}
 			if c.CliEnd {
-				ch.SendEnd(r.bg)
+				ch.SendEnd(ctx)
 			}
 		})
+		cut := false
 		if !c.SkipRecv {
 			for {
-				msg, st := ch.Receive(r.bg)
+				msg, st := ch.Receive(ctx)
 				if !st.OK() {
-					if st.Code != status.CodeEnd && !r.p.Faulty && !c.Panic && c.Code == "ok" {
-						// a failed call surfaces its failure here too; only an OK call must end with End
+					if st.Code != status.CodeEnd {
+						cut = true // the stream did not reach its end marker (cancelled / failed call)
 					}
 					break
 				}
@@ -393,11 +417,11 @@ func (r *rpcRun) clientCall(id int, cl rpc.Client) {
 				}
 				s.cliGot++
 			}
-			if !r.p.Faulty && s.cliGot != len(c.SrvStream) {
+			if !r.p.Faulty && !cut && !c.Skip && s.cliGot != len(c.SrvStream) {
 				r.fail("C04-stream-incomplete", "call %d: the caller read the stream to its end and got %d of %d messages before the end marker", id, s.cliGot, len(c.SrvStream))
 			}
 		}
-		val, st := ch.Response(r.bg)
+		val, st := ch.Response(ctx)
 		r.checkResult(id, val, st)
 		g.wait("rpc.client.join")
 		ch.Free()
@@ -449,7 +473,7 @@ func runRpc(t *testing.T, seed uint64, p *RpcPlan, o RunOpts, extra func(r *rpcR
 				rep.violate("C04-unfinished", "call %d (%s) never returned to its caller", id, c.Kind)
 				continue
 			}
-			if s.starts != 1 {
+			if s.starts != 1 && !(c.CancelUs > 0 && s.starts == 0) {
 				rep.violate("C04-handler-count", "call %d (%s) reached the handler %d times", id, c.Kind, s.starts)
 			}
 		}
@@ -559,13 +583,19 @@ func (r *rpcRun) main(extra func(r *rpcRun, clients []rpc.Client, srv rpc.Server
 		if r.p.Faulty {
 			return r.active == 0
 		}
-		for _, s := range r.cs {
-			if !s.handlerDone {
+		for id, s := range r.cs {
+			if !s.handlerDone && r.p.Calls[id].CancelUs == 0 {
 				return false
 			}
 		}
-		return true
+		return r.active == 0
 	})
+	// a cancelled call's request may still be on its way
+	for i := 0; i < 3; i++ {
+		simrt.WaitQuiescent("rpc.settle")
+		simrt.Sleep(100 * time.Millisecond)
+	}
+	simrt.WaitCond("rpc.join-handlers2", func() bool { return r.active == 0 })
 	r.errsAtTeardown, r.panicsAtTeardown = len(r.log.errors), simrt.PanicCount()
 	r.tornDown = true
 	for _, cl := range clients {
